@@ -96,6 +96,12 @@ def tasks(tier, seed):
         roots += [{"problem_name": n} for n in hm.RIEMANN_TABLE]
         if solver == "GenEOS":
             roots += [{"problem_name": n} for n in hm.JWL_TABLE]
+        else:
+            # unequal gammas around each pattern root (ideal-gas solver only: 4 ms per call): the K=1 roots around Sod reach unequal
+            # gammas only in the rarefaction-contact-shock pattern (seeded change S2-C09-1: a left/right slip in the two-shock branch)
+            for n in ("collision_equal_states", "recession_equal_states", "moving_scr", "recession_unequal_states"):
+                for k_, v_ in (("gl", 5.0 / 3.0), ("gr", 5.0 / 3.0), ("gl", 2.0)):
+                    roots.append({"problem_name": n, "extra": {k_: v_}})
         for r in roots:
             out.append({"kind": "riemann", "solver": solver, "root": r, "depth": DEPTH[tier], "tier": tier})
     for fam in ("Kenamond1", "Kenamond2", "Kenamond3", "CylindricalExpansion"):
@@ -122,6 +128,7 @@ def riemann_root(root):
     hm = _hm()
     if "problem_name" in root:
         c = hm._riemann_cfg({"problem_name": root["problem_name"]})
+        c.update(root.get("extra", {}))
     else:
         c = hm._riemann_cfg(root["dev"])
     c.setdefault("xmin", 0.0)
